@@ -9,19 +9,21 @@ open PromVerif.Spec.MmapDict (Store PrefixFrom PrefixState Written)
 
 /-! ## the two special files of a fresh writer: zero length, and sized but without header -/
 
-theorem fromFile_empty (page : Nat) : readAllValuesFromFile page [] = .error .structError := by
-  simp [readAllValuesFromFile, unpackInt, intWidth, headerPos, bind, Except.bind]
+/-- a file shorter than the 4-byte counter (created, not yet sized) reads as empty — the repaired behaviour (F11) -/
+theorem fromFile_short (page : Nat) (f : Bytes) (h : f.length < 4) : readAllValuesFromFile page f = .ok [] := by
+  have : shortFile (f.take page) = true := shortFile_true (by rw [List.length_take]; omega)
+  simp [readAllValuesFromFile, this]
 
-theorem fromFile_short (page : Nat) (f : Bytes) (h : f.length < 4) : readAllValuesFromFile page f = .error .structError := by
-  have : ¬ (headerPos + intWidth ≤ min page f.length) := by simp [headerPos, intWidth]; omega
-  simp [readAllValuesFromFile, unpackInt, this, bind, Except.bind]
+theorem fromFile_empty (page : Nat) : readAllValuesFromFile page [] = .ok [] :=
+  fromFile_short page [] (by simp)
 
 theorem take_zeros (m n : Nat) : (zeros n).take m = zeros (min m n) := by simp [zeros, List.take_replicate]
 
 theorem fromFile_zeros (page n : Nat) (hn : 4 ≤ n) (hp : 4 ≤ page) : readAllValuesFromFile page (zeros n) = .ok [] := by
   have h0 := unpackInt_zeros (min page n) (by omega)
   unfold readAllValuesFromFile
-  simp only [take_zeros, h0, bind, Except.bind]
+  have hsf : shortFile (zeros (min page n)) = false := shortFile_false (by simp; omega)
+  simp only [take_zeros, hsf, Bool.false_eq_true, if_false, h0, bind, Except.bind]
   have : ¬ ((0 : Int) > ((zeros (min page n)).length : Int)) := by omega
   simp only [this, if_false]
   unfold readAllValuesRaw
